@@ -2,8 +2,8 @@
 """Print the markdown table of seeded changes (DESIGN.md §9.4) from seeded/*/meta.json."""
 import glob, json, os
 HERE = os.path.dirname(os.path.dirname(os.path.abspath(__file__)))
-print("| id | what it breaks / needs to manifest | caught by (signature examples) | not caught by |")
-print("|----|-------------------------------------|--------------------------------|---------------|")
+print("| id | what it breaks / needs to manifest | caught by (signature examples) | not caught by | at import |")
+print("|----|-------------------------------------|--------------------------------|---------------|-----------|")
 for d in sorted(glob.glob(os.path.join(HERE, "seeded", "*"))):
     mp = os.path.join(d, "meta.json")
     if not os.path.exists(mp):
@@ -22,4 +22,10 @@ for d in sorted(glob.glob(os.path.join(HERE, "seeded", "*"))):
             missed.append(f"{p} (exit {v.get('exit')})")
     title = (m.get("title") or "")[:110].replace("|", "/")
     needs = (m.get("needs_to_manifest") or "")[:160].replace("|", "/").replace("\n", " ")
-    print(f"| {os.path.basename(d)} | {title} — {needs} | {'; '.join(caught) or '**none**'} | {'; '.join(missed) or '–'} |")
+    own = os.path.basename(d).split("-")[0]
+    b = conf.get("before_strengthening")
+    if b is not None:
+        first = "own check missed it; caught after strengthening" if own not in (b.get("detected_by") or []) else "caught"
+    else:
+        first = "caught" if own in (conf.get("detected_by") or []) else ("caught by another check only" if conf.get("detected_by") else "missed")
+    print(f"| {os.path.basename(d)} | {title} — {needs} | {'; '.join(caught) or '**none**'} | {'; '.join(missed) or '–'} | {first} |")
